@@ -115,7 +115,8 @@ func (d *describer) d1(v ssa.Value) string {
 	case *ssa.Parameter:
 		return v.Name()
 	case *ssa.FreeVar:
-		return "^" + v.Name()
+		// captured variables are held by reference: the free variable is the address of the variable
+		return "&^" + v.Name()
 	case *ssa.Const:
 		if v.Value == nil {
 			return "nil"
@@ -136,6 +137,12 @@ func (d *describer) d1(v ssa.Value) string {
 		return v.Name()
 	case *ssa.FieldAddr:
 		st := deref(v.X.Type()).Underlying().(*types.Struct)
+		if a, ok := v.X.(*ssa.Alloc); ok {
+			// spilled value (e.g. a value receiver copied to a local): describe through the stored value
+			if sv := singleStore(a); sv != nil {
+				return "&" + d.d(sv) + "." + st.Field(v.Field).Name()
+			}
+		}
 		return "&" + stripAmp(d.d(v.X)) + "." + st.Field(v.Field).Name()
 	case *ssa.Field:
 		st := v.X.Type().Underlying().(*types.Struct)
